@@ -22,6 +22,29 @@ def _seed():
     return int(os.environ.get("VERIF_SEED", "0") or 0)
 
 
+def _loop_in_closed_region(loop, region):
+    """every point of the closed polyline lies in the closure of the region: for each fine lattice edge of the loop
+    one of the two adjacent fine cells belongs to the region (lattices are offset, so both agree unless the edge
+    runs along the region's own boundary)"""
+    from ..oracle import P as PITCH
+
+    n = len(loop)
+    for i in range(n):
+        (x0, y0), (x1, y1) = loop[i], loop[(i + 1) % n]
+        steps = int(max(abs(x1 - x0), abs(y1 - y0)) * PITCH)
+        for k in range(steps):
+            mx = x0 + (x1 - x0) * Fraction(2 * k + 1, 2 * steps)
+            my = y0 + (y1 - y0) * Fraction(2 * k + 1, 2 * steps)
+            eps = Fraction(1, 4 * PITCH)
+            if x0 == x1:
+                sides = [(mx - eps, my), (mx + eps, my)]
+            else:
+                sides = [(mx, my - eps), (mx, my + eps)]
+            if not any(region.contains(p) for p in sides):
+                return False
+    return True
+
+
 def sweep(h, typ, ops, checks, tier):
     """checks: subset of {'member','lib-in','moments','structure','wf','eq','operands','subset','singleton-laws'}"""
     pairs = zoo.grid_pairs(tier, _seed())
@@ -102,6 +125,22 @@ def sweep(h, typ, ops, checks, tier):
                         h.ensure("equality-returns-bool", False, detail=f"{where}: == raised {type(e).__name__}: {e}")
                         continue
                     h.ensure("result-equals-directly-constructed-shape", e1 is True and e2 is True, detail=f"{where}: R==E {e1}, E==R {e2} (order={order})")
+            if "reuse" in checks:
+                # the operands have now been split at their crossings: every operator on the *same* objects must
+                # still give the set-theoretic result (C10: answers do not depend on earlier calls)
+                for op2, (lib2, truth2) in OPS.items():
+                    T2 = truth2(A, B)
+                    try:
+                        with watchdog(20):
+                            R2 = lib2(SA, SB)
+                    except Exception as e:  # noqa: BLE001
+                        h.ensure("operator-on-already-used-operands-does-not-raise", False, detail=f"{where} then {op2}: {type(e).__name__}: {e}")
+                        continue
+                    got = IntegrateShape.area(R2) if isinstance(R2, DefinedShape) else Fraction(0)
+                    want = T2.area() * s * s if not (T2.is_empty() or T2.is_whole()) else Fraction(0)
+                    same = (got == want) if typ != "float" else abs(float(got) - float(want)) <= 1e-9 * (1 + abs(float(want)))
+                    h.ensure("operator-on-already-used-operands-gives-the-same-region", same and (structure(R2)[0] in ("Empty", "Whole")) == (T2.is_empty() or T2.is_whole()),
+                             detail=f"{where} then {op2} on the same objects: area {got}, exact {want}")
             if "operands" in checks:
                 for nm, S0, reg, f0 in (("A", SA, A, fa0), ("B", SB, B, fb0)):
                     if not isinstance(S0, DefinedShape):
@@ -140,6 +179,7 @@ for _typ in ("frac", "int", "float"):
     _mk(f"C05.rc-grid[{_typ}]", "C05", ["C05", "C04"] + (["C13"] if _typ != "float" else []), _typ, ["or", "and", "sub", "xor"], {"moments"})
     _mk(f"C07.rc-grid[{_typ}]", "C07", ["C07", "C19"], _typ, ["or", "and", "sub"], {"eq"})
     _mk(f"C08.rc-grid[{_typ}]", "C08", ["C08", "C10"], _typ, ["or", "and", "sub", "xor"], {"operands"})
+    _mk(f"C10.rc-grid-reuse[{_typ}]", "C10", ["C10", "C01"], _typ, ["or", "and"], {"reuse"})
 
 
 @bounded("C03.rc-grid", "C03", funcs=["shape.DefinedShape.contains_shape", "shape.SimpleShape._contains_shape", "shape.SimpleShape.__contains_simple", "shape.SimpleShape._contains_jordan"],
@@ -174,6 +214,18 @@ def _c03(h):
                             h.ensure("subset-implies-union-and-intersection-laws", (u == SX) is True and (i == SY) is True, detail=f"{where}: A|B==A {u == SX}, A&B==B {i == SY}")
                         except Exception as e:  # noqa: BLE001
                             h.ensure("subset-laws-do-not-raise", False, detail=f"{where}: {type(e).__name__}: {e}")
+            # curve-in-shape on curves that have been split at their crossings with the shape's boundary
+            SX, SY = to_shape(A, typ), to_shape(B, typ)
+            if isinstance(SX, DefinedShape) and isinstance(SY, DefinedShape):
+                try:
+                    SX & SY  # splits both operands' boundaries at the crossings
+                    for jd in SY.jordans:
+                        lp = [(exact(sg.ctrlpoints[0][0]) / SCALE[typ], exact(sg.ctrlpoints[0][1]) / SCALE[typ]) for sg in jd.segments]
+                        truth_j = _loop_in_closed_region(lp, A)
+                        got_j = jd in SX
+                        h.ensure("curve-in-shape-means-every-point-of-the-curve", got_j is truth_j, detail=f"{label} type={typ}: boundary curve of B (split at its crossings) in A: library {got_j}, truth {truth_j}")
+                except Exception as e:  # noqa: BLE001
+                    h.ensure("curve-containment-does-not-raise", False, detail=f"{label}: {type(e).__name__}: {e}")
             SA = to_shape(A, typ)
             h.ensure("reflexive", (SA in SA) is True, detail=f"{label}: A in A")
     h.sample(dict(case="ring > unit@(1,1)", truth=zoo.region("unit", 1, (1, 1)).issubset(zoo.region("ring", 0))))
